@@ -31,6 +31,10 @@ def run(R):
                 add(CS.crypt_op("r", 0, b"pw", base[:R.rng.randrange(0, len(base) + 1)] + filler * n), (m, "long-tail", 2, n), start=True)
         for pl in (510, 511, 512, 513, 600, 5000):
             add(CS.crypt_op("rn", 1, b"p" * pl, base), (m, "long-phrase", pl, len(base)), start=True)
+    # results at the very end of the output field: every salt length of the three unbounded-salt methods that brings the result within a few
+    # characters of 384, in every spelling of the salt's end; the terminating NUL must stay inside the field (seeded/C04e: one length, one spelling)
+    lo, lm = CS.limit_sweep(R, quick)
+    for o, m in zip(lo, lm): add(o, m, start=True)
     # byte mutations (control characters, 8-bit) of valid settings
     for m, base in S.CANON.items():
         muts = S.mutations(base, S.CANON_DANGER.get(m, []), values=[1, 0x1f, 0x20, 0x7f, 0x80, 0xff, ord("$"), ord(":")])
